@@ -14,7 +14,7 @@ func main() {
 			"byte payload boundary lengths 255/256/65535/65536, all prefix widths, every array rule); per value: enc with and without validation, "+
 			"dec(enc), canon, a few mutated inputs; non-trivial = Encode succeeded on a value with a non-empty collection/string, a nested struct or a non-nil interface; "+
 			"distinct by sha256(schema, value, mode)",
-		serixgen.Plan{Values: 3, Mutations: 1, RoundTrip: true, BothModes: true}, 2500, corpus)
+		serixgen.Plan{Values: 3, Mutations: 1, RoundTrip: true, BothModes: true, ThoroughScale: 12}, 2500, corpus)
 }
 
 // corpus: minimised past failures and hand written cases, run first.
